@@ -187,6 +187,8 @@ class C18(PropertyCheck):
         "thorough": "every mask of a 3x3 interior inside a 5x5 frame with sub-sizes 1,2,3,4 and every mask "
                     "of a 3x4 interior inside a 5x6 frame (4095 shapes) with sub-size 2",
     }
+    # loop ties (DESIGN §12): regenerated from the source on every run, tie theorems proved for all sizes
+    loop_tie_modules = ["LoopsRelocate"]
     modelled_functions = [
         "autoarray/structures/grids/grid_2d_util.py:relocated_grid_via_jit_from",
         "autoarray/structures/grids/grid_2d_util.py:furthest_grid_2d_slim_index_from",
